@@ -621,65 +621,72 @@ def arraySet (its : List Item) (fixed : Option Nat) (dflt : Item) (i : Nat) (v :
     | .one _ it => .ok (its.set (i - 1) it)
     | _ => .error .opProblem
 
+/-- the validation ladder of `Property.WriteProperty` (the `if arrayIndex == 0 …
+    elif AnyAtomic … elif Atomic … elif Array … elif List … elif not isinstance`
+    chain).  (with fixes/C15-wp-array-null.patch: a non-list, non-array value
+    for an array property is refused) -/
+def ladder (dt : DT) (v : WVal) (idx : Option Nat) : Except Refusal Unit :=
+  if idx = some 0 then
+    -- `Unsigned.is_valid(value)`
+    match v with
+    | .one e' it => if atomValid 2 0 none e' it then .ok () else .error invalidDatatype
+    | _ => .error invalidDatatype
+  else
+    match dt with
+    | .scalar e =>
+      match v with
+      | .one e' it => if elemValid e e' it then .ok () else .error invalidDatatype
+      | _ => .error invalidDatatype
+    | .arrayOf e _ _ =>
+      match idx with
+      | some _ =>
+        match v with
+        | .one e' it => if elemValid e e' it then .ok () else .error invalidDatatype
+        | _ => .error invalidDatatype
+      | none =>
+        match v with
+        | .many e' its => if its.all (elemValid e e') then .ok () else .error invalidDatatype
+        | _ => .error invalidDatatype
+    | .listOf e =>
+      match idx with
+      | some _ => .error .notAnArray
+      | none =>
+        match v with
+        | .many e' its => if its.all (elemValid e e') then .ok () else .error invalidDatatype
+        | _ => .error invalidDatatype
+
+/-- the assignment at the end of `Property.WriteProperty`: the new stored value -/
+def assign (dt : DT) (old : PVal) (v : WVal) (idx : Option Nat) : Except Refusal PVal :=
+  match idx with
+  | some i =>
+    match dt with
+    | .arrayOf _ fixed dflt =>
+      match old with
+      | .absent => .error .opProblem                   -- RuntimeError("uninitialized array")
+      | .arr its => (arraySet its fixed dflt i v).map .arr
+      | _ => .error .opProblem
+    | _ => .error .notAnArray
+  | none =>
+    match dt, v with
+    | .scalar _, .one _ it => .ok (.one it)
+    | .arrayOf _ fixed _, .many _ its =>
+        -- `value = self.datatype(value)`: the ArrayOf constructor re-checks the fixed length
+        (match fixed with
+         | some n => if its.length = n then .ok (.arr its) else .error .opProblem
+         | none => .ok (.arr its))
+    | .listOf _, .many _ its => .ok (.lst its)
+    | _, _ => .error .opProblem
+
 /-- `Property.WriteProperty(obj, value, arrayIndex, priority, direct=False)`:
-    the validation ladder, then the single assignment.  Returns the new stored
-    value.  (with fixes/C15-wp-array-null.patch: a non-list, non-array value for
-    an array property is refused) -/
+    read-only check, validation ladder, then the single assignment.  Returns
+    the new stored value.  (`if not self.optional and value is None` cannot
+    fire: a wire value is never None) -/
 def stdWrite (s : Slot) (v : WVal) (idx : Option Nat) : Except Refusal PVal :=
-  -- `if not self.optional and value is None`: a wire value is never None
   if !s.d.mutable then .error .writeAccessDenied
   else
-    let checked : Except Refusal Unit :=
-      if idx = some 0 then
-        -- `Unsigned.is_valid(value)`
-        match v with
-        | .one e' it => if atomValid 2 0 none e' it then .ok () else .error invalidDatatype
-        | _ => .error invalidDatatype
-      else
-        match s.d.dt with
-        | .scalar e =>
-          match v with
-          | .one e' it => if elemValid e e' it then .ok () else .error invalidDatatype
-          | _ => .error invalidDatatype
-        | .arrayOf e _ _ =>
-          match idx with
-          | some _ =>
-            match v with
-            | .one e' it => if elemValid e e' it then .ok () else .error invalidDatatype
-            | _ => .error invalidDatatype
-          | none =>
-            match v with
-            | .many e' its => if its.all (elemValid e e') then .ok () else .error invalidDatatype
-            | _ => .error invalidDatatype
-        | .listOf e =>
-          match idx with
-          | some _ => .error .notAnArray
-          | none =>
-            match v with
-            | .many e' its => if its.all (elemValid e e') then .ok () else .error invalidDatatype
-            | _ => .error invalidDatatype
-    match checked with
+    match ladder s.d.dt v idx with
     | .error r => .error r
-    | .ok () =>
-      match idx with
-      | some i =>
-        match s.d.dt with
-        | .arrayOf _ fixed dflt =>
-          match s.v with
-          | .absent => .error .opProblem                   -- RuntimeError("uninitialized array")
-          | .arr its => (arraySet its fixed dflt i v).map .arr
-          | _ => .error .opProblem
-        | _ => .error .notAnArray
-      | none =>
-        match s.d.dt, v with
-        | .scalar _, .one _ it => .ok (.one it)
-        | .arrayOf _ fixed _, .many _ its =>
-            -- `value = self.datatype(value)`: the ArrayOf constructor re-checks the fixed length
-            (match fixed with
-             | some n => if its.length = n then .ok (.arr its) else .error .opProblem
-             | none => .ok (.arr its))
-        | .listOf _, .many _ its => .ok (.lst its)
-        | _, _ => .error .opProblem
+    | .ok () => assign s.d.dt s.v v idx
 
 /-- the object names the application knows (`Application.objectName` keys):
     the objectName values of all objects -/
